@@ -14,7 +14,7 @@ META = dict(
     functions_encoded=['(*Deb).CheckDebsig', 'deb.Load', 'loadDeb', 'loadDeb2', 'loadDeb2Control', 'loadDeb2Data', 'io.MultiReader / io.SectionReader.Seek from SSA', 'the ar reader'],
     stubs=['idealised OpenPGP (engine/symgo/pgpmodel.py): a detached signature is the record (key, signed bytes); verification drains the signed-data reader and succeeds iff the key is in the keyring and the bytes are exactly the signed ones',
            'abstract codecs and tar as in C14', 'map iteration order: every permutation of the member map is explored at each range statement'],
-    bounds={'quick': 'a package with debian-binary, control.tar.gz, data.tar (also .gz and .zst, also with a second package loaded before the payload is read) and _gpgorigin; symbolic maintainer (2 characters) and payload (2 bytes); signer one of two keys, each of four keyrings, asked role origin or another; the asked role as any byte string of the length of the signed role, the signed role with 1-2 arbitrary bytes behind or 1 in front, or cut short, for the roles origin and distribution (which fills the ar name column); after signing: nothing, one symbolic byte of the control paragraph, one of the payload, a signature over other bytes; a decoy second control.* or data.* member (tarball names, and the signed tarball parked under control.orig beside a foreign control.tar.gz); a second verification of the same Deb with a keyring that lacks the signer; every rotation of the iteration order of the member map (what the Go runtime produces for small maps) at each of the three range statements, independently',
+    bounds={'quick': 'a package with debian-binary, control.tar.gz, data.tar (also .gz and .zst, also with a second package loaded before the payload is read) and _gpgorigin; symbolic maintainer (2 characters) and payload (2 bytes); signer one of two keys, each of four keyrings, asked role origin or another; the asked role as any byte string of the length of the signed role, the signed role with 1-2 arbitrary bytes behind or 1 in front, or cut short, for the roles origin and distribution (which fills the ar name column); after signing: nothing, one symbolic byte of the control paragraph, one of the payload, a signature over other bytes; a decoy second control.* or data.* member (tarball names, also empty ones, and the signed tarball parked under control.orig beside a foreign control.tar.gz); a second verification of the same Deb with a keyring that lacks the signer; every rotation of the iteration order of the member map (what the Go runtime produces for small maps) at each of the three range statements, independently',
             'thorough': 'the same with 3-character leaves and both decoys together'},
     outside_claim=['the cryptographic strength of OpenPGP (idealised)', 'real codecs (as in C14)'],
     assumptions=['idealised signatures'])
@@ -31,7 +31,7 @@ def jobs(tier):
             js.append(dict(name='tamper_%d_%d' % (tamper, keyring), signer=0, keyring=keyring, ask=b'origin', tamper=tamper, decoy=0))
     for second in (1, 3):
         js.append(dict(name='twice_%d' % second, signer=0, keyring=2, ask=b'origin', tamper=0, decoy=0, second=second))
-    for decoy in (1, 2, 3):
+    for decoy in (1, 2, 3, 4, 5):
         for keyring in (2, 4):
             js.append(dict(name='decoy_%d_%d' % (decoy, keyring), signer=0, keyring=keyring, ask=b'origin', tamper=0, decoy=decoy))
     # the asked role as arbitrary bytes: any string of the role's own length, the role with 1-2 arbitrary bytes
@@ -45,7 +45,7 @@ def jobs(tier):
                 js.append(dict(name='dext%s_%d' % (dext.decode() or '.none', inter), signer=0, keyring=2, ask=b'origin', tamper=0, decoy=0, dext=dext, interleave=inter))
     js.append(dict(name='dext.zst_tamper2', signer=0, keyring=2, ask=b'origin', tamper=2, decoy=0, dext=b'.zst', interleave=True))
     for role in (b'origin', b'distribution'):
-        for shape in ('same_len', 'suffix1', 'suffix2', 'prefix1', 'cut1', 'cut2'):
+        for shape in ('same_len', 'suffix1', 'suffix2', 'prefix1', 'cut1', 'cut2', 'gpgprefix', 'membername'):
             js.append(dict(name='role_%s_%s' % (role.decode(), shape), signer=0, keyring=2, role=role, ask_shape=shape, ask=role, tamper=0, decoy=0))
     return js
 
@@ -62,7 +62,7 @@ def run_job(env, job):
     if shape:
         x = tuple(symstr('r', 2))
         ask = Str({'same_len': tuple(symstr('a', len(role))), 'suffix1': tuple(role) + x[:1], 'suffix2': tuple(role) + x, 'prefix1': x[:1] + tuple(role),
-                   'cut1': tuple(role[:-1]), 'cut2': tuple(role[:-2]) + x[:1]}[shape])
+                   'cut1': tuple(role[:-1]), 'cut2': tuple(role[:-2]) + x[:1], 'gpgprefix': tuple(b'_gpg') + tuple(role), 'membername': tuple(b'_gpg_gpg') + tuple(role)}[shape])
     r = run_harness(env, PKG, 'VerifC16', [job['signer'], job['keyring'], ask, job['tamper'], job['decoy'], maint, payload, nb, 1, job.get('second', 0), role, job.get('dext', b''), job.get('interleave', False)], assume, unwind=600, unsigned=(7,),
                     interp_kw=dict(map_orders='rot' if env.tier == 'quick' else 'perm', map_order_filter='ArEntry'), timeout_ms=300000,
                     sample=dict(signer=job['signer'], keyring_mode=job['keyring'], signed_role=role.decode(), asked_role=shape or job['ask'].decode(), altered_after_signing=job['tamper'], decoy_member=job['decoy'], map_orders='every rotation (quick) / permutation (thorough) of the member map at each of the three range statements'))
